@@ -119,17 +119,61 @@ func (w *World) sortOf(t *Ty, m *Model) Sort {
 
 // structDecls emits datatype declarations for all structs under model m,
 // in dependency order (structs are registered after their field types).
-func (w *World) structDecls(m *Model) string {
-	var b strings.Builder
+func (w *World) structDecls(m *Model) string { return w.structDeclsFor(m, "") }
+
+// structDeclsFor: datatype declarations, in creation (dependency) order, of
+// the structs whose sort is mentioned in body - directly or through a field
+// of a struct that is. With body == "" all structs are declared. Declaring
+// only what an obligation uses makes its script independent of which other
+// functions were translated in the same run (solver behaviour is sensitive
+// to such incidental differences).
+func (w *World) structDeclsFor(m *Model, body string) string {
+	type item struct {
+		name, decl string
+	}
+	var items []item
 	for _, sd := range w.structList {
 		sn := sd.Name + "_" + m.Name
+		var b strings.Builder
 		fmt.Fprintf(&b, "(declare-datatypes ((%s 0)) (((mk_%s", sn, sn)
 		for _, f := range sd.Fields {
 			fmt.Fprintf(&b, " (%s_%s %s)", sn, sanitize(f.Name), w.sortOf(f.Ty, m))
 		}
 		b.WriteString("))))\n")
+		items = append(items, item{sn, b.String()})
 	}
-	return b.String()
+	need := make([]bool, len(items))
+	if body == "" {
+		for i := range need {
+			need[i] = true
+		}
+	} else {
+		for changed := true; changed; {
+			changed = false
+			for i, it := range items {
+				if need[i] {
+					continue
+				}
+				used := strings.Contains(body, it.name)
+				for j, jt := range items {
+					if need[j] && j != i && strings.Contains(jt.decl[strings.Index(jt.decl, "((("):], it.name) {
+						used = true
+					}
+				}
+				if used {
+					need[i] = true
+					changed = true
+				}
+			}
+		}
+	}
+	var out strings.Builder
+	for i, it := range items {
+		if need[i] {
+			out.WriteString(it.decl)
+		}
+	}
+	return out.String()
 }
 
 func (w *World) goTy(t types.Type, bv bool) *Ty {
